@@ -318,6 +318,70 @@ def main(argv):
         ctx.count("random-histories")
         lines.append(f"failover cfg={ra},{rt},{dt},{int(ign)} n={n} t0=0 " + " ".join(ev_text(e) for e in evs))
         metas.append((cfg, n, evs, out, tags))
+    # ---- the same window bounds with REAL inner Client objects (the scripted client_class above ignores the constructor arguments the
+    #      HashClient passes down): a server that refuses connections, read and write traffic on its keys, contacts = connect() attempts ---------
+    from fakesock import FakeSocketModule, World
+    from refserver import RefServer
+    for ign in (False, True):
+        for ra in (0, 1, 2):
+            for traffic in ("get", "set", "get_many", "gets", "mixed"):
+                rt, dt = 10, 60
+                CLOCK[0] = 0
+                srvs = {}
+                world = World(server=lambda conn, data: [srvs.setdefault(conn.addr, RefServer()).feed(conn.id, data)])
+                world.refuse_addrs = {("h", 0)}
+
+                class HCR(H.HashClient):
+                    pass
+                c = HCR([("h", 0), ("h", 1)], hasher=PrefHasher, socket_module=FakeSocketModule(world), retry_attempts=ra, retry_timeout=rt, dead_timeout=dt,
+                        ignore_exc=ign, default_noreply=False)
+                contacts = []          # (time) of connect attempts to the failing server
+                served_elsewhere_after = None
+                key = "k0_0_1"         # prefers server 0, then 1
+                ops = {"get": lambda: c.get(key), "set": lambda: c.set(key, b"v"), "get_many": lambda: c.get_many([key, "k1_0_1"]), "gets": lambda: c.gets(key)}
+                t = 0
+                for step in range(40):
+                    t += (1, 1, 3, 1, 11, 1, 1, 2)[step % 8]
+                    CLOCK[0] = t
+                    nled = len(world.ledger)
+                    f = ops[traffic] if traffic != "mixed" else ops[("get", "set", "get_many", "gets")[step % 4]]
+                    try:
+                        f()
+                    except Exception:
+                        pass
+                    for e in world.ledger[nled:]:
+                        if e[0] == "connect" and e[2] and e[2][0] == ("h", 0):
+                            contacts.append(t)
+                case = {"cfg": {"retry_attempts": ra, "retry_timeout": rt, "dead_timeout": dt, "ignore_exc": ign}, "inner_clients": "real Client objects", "traffic": traffic,
+                        "failing_server_contacted_at": contacts[:20]}
+                ctx.case(("real-inner", ign, ra, traffic))
+                ctx.count("real-inner-client-histories")
+                tags = ["real-inner-clients"]
+                bad = None
+                for i in range(len(contacts) - 2):
+                    if contacts[i + 2] - contacts[i] <= rt:
+                        bad = f"the failing server was contacted 3 times within a retry_timeout-long window (t={contacts[i:i + 3]})"
+                        break
+                if bad is None:
+                    for i in range(len(contacts)):
+                        k_ = len([x for x in contacts[i:] if x <= contacts[i] + dt])
+                        if k_ > ra + 2:
+                            bad = f"the failing server was contacted {k_} > retry_attempts+2 times within a dead_timeout-long window starting at t={contacts[i]}"
+                            break
+                if bad:
+                    ctx.violation(bad, case, tags=tags + ["rt-window" if "retry_timeout" in bad else "dt-window"])
+                    continue
+                # once it is out, its keys are served by the remaining server
+                CLOCK[0] = t + 1
+                srvs.setdefault(("h", 1), RefServer())
+                try:
+                    c.set(key, b"vv", noreply=False)
+                    got = c.get(key)
+                except Exception as e:
+                    got = e
+                if ("h:0" in c.hasher.nodes) or got != b"vv":
+                    ctx.violation("after the probing budget was used up the failing server is still in rotation / its keys are not served by the remaining server",
+                                  dict(case, rotation=list(c.hasher.nodes), get=repr(got)[:60]), tags=tags + ["not-evicted"])
     if ctx.lean.build_ok:
         for (cfg, n, evs, out, tags), o in zip(metas, ctx.driver.batch(lines)):
             got = o[3:].split(" || ") if o.startswith("ok ") else [o]
